@@ -188,6 +188,21 @@ fn run_typed<T: Float + FromPrimitive + Send + Sync + std::fmt::Debug>(ctx: &Ctx
         moments_check::<T>(ctx, ty, s);
     }
     tail_check::<T>(ctx, ty);
+    // every single-bit flip of the base seeds 0 and 42: the 65 blocks per base are pairwise different
+    for base in [0u64, 42] {
+        let seeds: Vec<u64> = std::iter::once(base).chain((0..64).map(|b| base ^ (1u64 << b))).collect();
+        let mut seen: std::collections::HashMap<Vec<Vec<u64>>, u64> = std::collections::HashMap::new();
+        ctx.evals(1);
+        ctx.transitions(seeds.len() as u64);
+        for s in seeds {
+            let blk = bits(&init_with_seed::<T>(3, 4, s));
+            if let Some(o) = seen.get(&blk) {
+                ctx.violation(Violation::new("C18:seed-ignored", format!("init_with_seed::<{ty}>(3,4,·): seeds {o} and {s} (single-bit flips of {base}) give identical output"), json!({"ty": ty, "n": 3, "d": 4, "seed": s.to_string()})));
+            } else {
+                seen.insert(blk, s);
+            }
+        }
+    }
 }
 
 pub fn run(ctx: &Ctx) {
